@@ -292,8 +292,20 @@ func (g *streamGen) extObject(t *rapid.T, out *[]model.Ev) {
 	seen := map[string]bool{}
 	saved := g.cfg.NoDupKeys
 	g.cfg.NoDupKeys = true // a Go map cannot hold duplicates
+	seenSan := map[string]bool{}
 	for i := 0; i < n; i++ {
 		k := g.key(t, seen)
+		// keys that only differ in invalid UTF-8 bytes collide once JSON has
+		// replaced those by U+FFFD; a Go map delivers them in random order, so
+		// an order-independent comparison could not align them: keep the
+		// sanitised forms distinct by construction
+		if san := string(model.SanitizeUTF8(k.S)); seenSan[san] {
+			k.S = append(append([]byte{}, k.S...), []byte("#"+itoa(i))...)
+			seen[string(k.S)] = true
+			seenSan[string(model.SanitizeUTF8(k.S))] = true
+		} else {
+			seenSan[san] = true
+		}
 		e.Keys = append(e.Keys, k.S)
 		g.budget--
 		g.scalar(t, &e.E, kind)
